@@ -13,6 +13,8 @@ fuzz    the texts of tests/test_dimacsparser.py (both tiers) and, thorough tier 
         coverage-guided atheris campaigns with the same oracle inside the fuzz target.
 writer  also holds the *history* cases (kind=history): one formula object encoded, changed,
         encoded again ... against the harness's own model of the object (_run_history).
+writer  also holds the *destination* cases (kind=dest): an explicit format request crossed with destinations whose
+        NAME suggests another format (file names, open handles, user objects with a .name; library and tools' -o).
 reader  also holds the *byte level* cases (cases with 'data', run_reader_bytes): files that are not clean UTF-8
         text (invalid bytes, BOMs, NULs, Latin-1 letters, cut multi-byte sequences inside comments, the problem line
         and the clause lines) given BY NAME to CNF.from_file / cnfgen dimacs / cnfshuffle -i, and through handles
@@ -350,6 +352,8 @@ def run_writer(case):
         return _run_writer_cli(case, labels)
     if kind == 'history':
         return _run_history(case, labels)
+    if kind == 'dest':
+        return _run_dest(case, labels)
     F = _build(case)
     n, clauses = _snapshot(F)
     via = case['via']
@@ -443,6 +447,267 @@ def _run_writer_cli(case, labels):
     if '-T' in base:
         labels.add('chain')
     return _writer_outcome(labels, n, clauses, header_on, {})
+
+
+# ---- (a'') explicit format request x name of the destination (kind=dest)
+
+DEST_NAMES = ['f.cnf', 'f.dimacs', 'f.txt', 'f.gml', 'noext', 'f.opb', 'f.tex', 'a.tex.cnf', 'a.opb.cnf', 'a.cnf.opb',
+              'a.cnf.tex', 'a.opb.tex', 'a.tex.opb', 'F.OPB', 'F.TEX', 'f.Opb', 'f.teX', 'F.CNF', '.opb', '.tex', 'f.opb.',
+              'f.tex ', 'opb', 'tex', 'f.opbx', 'f.latex', 'd.opb/plain', 'd.tex/h.cnf', 'd.cnf/g.opb', 'a b.opb', 'é.tex']
+DEST_LIB_PATHS = ['to_file-name', 'to_file-handle', 'to_file-handle-bytes', 'to_file-handle-fd', 'to_file-object',
+                  'to_file-strio-named', 'to_dimacs_file-name', 'to_dimacs_file-handle', 'to_dimacs_file-object']
+DEST_TOOL_PATHS = ['cnfgen', 'cnfshuffle', 'kthlist2pebbling']
+DEST_NAMEOBJ = ['str', 'abs', 'bytes', 'int', 'none', 'list', 'missing']     # the .name of a user-defined destination
+DEST_REQUESTS = [None, 'dimacs', 'opb', 'latex']
+DEST_CLI = [['php', 3, 2], ['op', 3], ['and', 2, 1], ['or', 0, 3], ['true'], ['false'], ['peb', 'pyramid', 1],
+            ['php', 2, 2, '-T', 'xor', 2]]
+DEST_OSPELL = ['-o', '--output', '--output=', '-o-glued']
+DEST_OFSPELL = ['-of', '--output-format', '--output-format=', 'flag']
+
+
+class _NamedSink:
+    """a user-defined destination: write() and a `name` attribute the user chose"""
+
+    def __init__(self, *name):
+        self._parts = []
+        if name:
+            self.name = name[0]
+
+    def write(self, text):
+        self._parts.append(text)
+        return len(text)
+
+    def getvalue(self):
+        return ''.join(self._parts)
+
+
+def _name_suggests(name):
+    """-> (format the name suggests | None, documented?)  The documented guess: without a request the output is DIMACS
+    unless the file name ends with '.tex' or '.opb' (lower case, something in front of the dot)."""
+    if isinstance(name, bytes):
+        try:
+            return _name_suggests(name.decode('utf-8'))[0], False
+        except UnicodeDecodeError:
+            return None, False
+    if not isinstance(name, str):
+        return None, False
+    base = name.replace(os.sep, '/').rsplit('/', 1)[-1]
+    stem, dot, ext = base.rpartition('.')
+    if not dot or ext.lower() not in ('tex', 'opb'):
+        return None, False
+    fmt = 'latex' if ext.lower() == 'tex' else 'opb'
+    return fmt, (ext == ext.lower() and stem.strip('.') != '')
+
+
+def _dest_expected(request, name):
+    """the set of formats the destination may hold"""
+    if request is not None:
+        return {request}
+    fmt, documented = _name_suggests(name)
+    if fmt is None:
+        return {'dimacs'}
+    return {fmt} if documented else {'dimacs', fmt}
+
+
+def _dest_classify(text):
+    if text.startswith('* #variable='):
+        return 'opb'
+    if any(ln.startswith('\\documentclass') for ln in text.split('\n')):
+        return 'latex'
+    return 'dimacs'
+
+
+def _pebbling_reference(n, preds):
+    clauses = [[-p for p in sorted(preds[v - 1])] + [v] for v in range(1, n + 1)]
+    has_succ = {p for ps in preds for p in ps}
+    return clauses + [[-v] for v in range(1, n + 1) if v not in has_succ]
+
+
+def _dest_dag(rseed):
+    R = random.Random(rseed)
+    n = R.randint(1, 6)
+    return n, [sorted(R.sample(range(1, v), R.randint(0, min(2, v - 1)))) for v in range(1, n + 1)]
+
+
+def _run_tool(tool, argv, mode):
+    if tool == 'cnfgen':
+        return _run_cli(argv, mode)
+    if tool == 'cnfshuffle':
+        from cnfgen.clitools.cnfshuffle import cli
+    else:
+        from cnfgen.clitools.kthlist2pebbling import cli
+    _reset_cli_state()
+    old_out, old_in = sys.stdout, sys.stdin
+    buf = _Buf()
+    sys.stdout = buf
+    try:
+        res = cli(argv, mode=mode)
+    finally:
+        sys.stdout, sys.stdin = old_out, old_in
+        _reset_cli_state()
+    return res, buf.getvalue()
+
+
+def _run_dest(case, labels):
+    from cnfgen.utils.parsedimacs import to_dimacs_file
+    how, name, request = case['path'], case['name'], case['request']
+    header_on, varnames_on = bool(case['export_header']), bool(case['export_varnames'])
+    tmp = _tmpdir()
+    handle = None
+    try:
+        path = os.path.join(tmp, name)
+        if os.path.dirname(path) != tmp:
+            os.makedirs(os.path.dirname(path))
+        seen = name              # the name the writer gets to see
+        if how in DEST_LIB_PATHS:
+            F = _build(dict(case, kind='hand'))
+            n, clauses = _snapshot(F)
+            if how.startswith('to_dimacs_file'):
+                request = None
+                expected = {'dimacs'}
+
+                def write(dest):
+                    to_dimacs_file(F, dest, export_header=header_on, export_varnames=varnames_on)
+            else:
+                def write(dest):
+                    if request is not None and case.get('positional'):
+                        F.to_file(dest, request, export_header=header_on, export_varnames=varnames_on)
+                    else:
+                        F.to_file(dest, fileformat=request, export_header=header_on, export_varnames=varnames_on)
+            what_dest = repr(name)
+            if how.endswith('-name'):
+                seen = path
+                write(path)
+            elif how.endswith('-strio-named'):
+                sink = _Buf()
+                sink.name = name
+                write(sink)
+            elif how.endswith('-object'):
+                kind = case['nameobj']
+                seen = {'str': name, 'abs': path, 'bytes': os.fsencode(name), 'int': 7, 'none': None, 'list': [name]}.get(kind)
+                sink = _NamedSink() if kind == 'missing' else _NamedSink(seen)
+                what_dest = 'a user object with name {!r}'.format(seen) if kind != 'missing' else 'a user object without name'
+                write(sink)
+            else:
+                if how.endswith('-fd'):
+                    handle = os.fdopen(os.open(path, os.O_WRONLY | os.O_CREAT | os.O_TRUNC, 0o600), 'w', encoding='utf-8', newline='')
+                elif how.endswith('-bytes'):
+                    handle = open(os.fsencode(path), 'w', encoding='utf-8', newline='')
+                else:
+                    handle = open(path, 'w', encoding='utf-8', newline='')
+                seen = handle.name
+                what_dest = 'an open file with name {!r}'.format(name if not isinstance(seen, int) else seen)
+                write(handle)
+                handle.close()
+            if how.endswith(('-object', '-strio-named')):
+                text = sink.getvalue()
+                path = None
+            else:
+                with open(path, encoding='utf-8', newline='') as f:
+                    text = f.read()
+            if not how.startswith('to_dimacs_file'):
+                expected = _dest_expected(request, seen)
+            what = "{}({}{})".format(how.split('-')[0], what_dest, '' if how.startswith('to_dimacs_file') else
+                                     ', fileformat={!r}'.format(request))
+            if _snapshot(F) != (n, clauses):
+                raise Violation("{}: writing changed the formula".format(what))
+        else:
+            rseed = case['rseed']
+            seen = path
+            tail = []
+            truth = None
+            if how == 'cnfgen':
+                front = ['cnfgen'] + list(case['flags'])
+                core = ['--seed', str(rseed)]
+                header_on, varnames_on = '-q' not in case['flags'], '--varnames' in case['flags']
+                if request is not None:
+                    sp = case['ofspell']
+                    if sp == 'flag' and request == 'latex':
+                        front += ['--latex']
+                    elif sp.endswith('='):
+                        front += [sp + request]
+                    else:
+                        front += ['-of' if sp == 'flag' else sp, request]
+                tail = [str(a) for a in case['argv']]
+            else:
+                front = [how] + list(case['flags'])
+                header_on, varnames_on = '-q' not in case['flags'], False
+                request = 'dimacs'                # these tools always ask for DIMACS
+                if how == 'cnfshuffle':
+                    truth = (case['n'], [list(c) for c in case['clauses']])
+                    src = os.path.join(tmp, 'source.cnf')
+                    text = _render_independent(*truth)
+                    core = SHUFFLE_FIXED[1:] + ['-i', src]
+                else:
+                    dn, preds = _dest_dag(rseed)
+                    src = os.path.join(tmp, 'source.kthlist')
+                    text = 'c a dag\n{}\n'.format(dn) + ''.join(
+                        '{} : {}0\n'.format(v, ''.join('{} '.format(p) for p in preds[v - 1])) for v in range(1, dn + 1))
+                    tail = [str(a) for a in case['tail']]
+                    if not tail:
+                        truth = (dn, _pebbling_reference(dn, preds))
+                    core = ['-i', src]
+                with open(src, 'w', encoding='utf-8', newline='') as f:
+                    f.write(text)
+            if how == 'cnfshuffle':
+                n, clauses = truth                # -p -v -c: the tool hands back what it read
+            else:
+                random.seed(rseed)
+                F, _ = _run_tool(how, [how] + core + tail, 'formula')
+                n, clauses = _snapshot(F)
+            if truth is not None and (truth[0], sorted(sorted(c) for c in truth[1])) != (n, sorted(sorted(c) for c in clauses)):
+                raise Violation("{} {}: the tool's formula has {} variables and clauses {}, the source file holds {} and {}".format(
+                    how, ' '.join(core[:-1] + tail), n, clauses[:8], truth[0], truth[1][:8]))
+            osp = case['ospell']
+            out = [osp + path] if osp.endswith('=') else ['-o' + path] if osp == '-o-glued' else [osp, path]
+            argv = front + (out + core if case['o_first'] else core + out) + tail
+            random.seed(rseed)
+            _, captured = _run_tool(how, argv, 'output')
+            gc.collect()            # the tools never close their argparse.FileType handles: flush them
+            what = "`{}`".format(' '.join(argv).replace(tmp + os.sep, '')[:200])
+            if captured != '':
+                raise Violation("{}: {} characters on stdout although -o was given".format(what, len(captured)))
+            with open(path, encoding='utf-8', newline='') as f:
+                text = f.read()
+            expected = _dest_expected(request, path)
+        got = _dest_classify(text)
+        suggests = _name_suggests(seen)[0]
+        if got not in expected:
+            raise Violation("{}: the destination holds {} text, {} (output starts {!r})".format(
+                what, got.upper(),
+                "DIMACS was asked for explicitly" if request == 'dimacs' else
+                "{} was asked for explicitly".format(request) if request is not None else
+                "without a request the documented guess for this name is {}".format('/'.join(sorted(expected))), text[:80]))
+        if got == 'dimacs':
+            _verify_output(text, n, clauses, header_on, varnames_on, case, what, path=path)
+        elif got == 'opb':
+            first = text.split('\n', 1)[0]
+            if first != '* #variable= {} #constraint= {}'.format(n, len(clauses)):
+                raise Violation("{}: OPB output opens with {!r} for a formula with {} variables and {} clauses".format(
+                    what, first[:80], n, len(clauses)))
+        else:
+            if '\\begin{document}' not in text or '\\end{document}' not in text:
+                raise Violation("{}: LaTeX output without document environment".format(what))
+    finally:
+        if handle is not None and not handle.closed:
+            handle.close()
+        shutil.rmtree(tmp, ignore_errors=True)
+    labels |= {'dest', 'dest-path-' + how, 'dest-req-' + str(request), 'dest-got-' + got,
+               'dest-name-suggests-' + str(suggests)}
+    if len(expected) > 1:
+        labels.add('dest-gray-name')
+    if how.endswith('-object'):
+        labels.add('dest-nameobj-' + case['nameobj'])
+    if request is not None and suggests is not None and suggests != request:
+        labels.add('dest-request-{}-against-name-{}'.format(request, suggests))
+    if request is None and got != 'dimacs' and len(expected) == 1:
+        labels.add('dest-guess-' + got)
+    if '/' in name:
+        labels.add('dest-dotted-directory')
+    labels.add('header-on' if header_on else 'header-off')
+    out = _writer_outcome(labels, n, clauses, header_on, {})
+    return Outcome(labels=out.labels, nontrivial=len(clauses) >= 1 and (
+        (request is not None and suggests not in (None, request)) or (request is None and suggests is not None)))
 
 
 # ---- (a') history: one formula object, encoded again and again while it grows
@@ -888,8 +1153,95 @@ def enum_history(tier):
                              ['enc', 'to_dimacs', False, False], ['enc', 'cli-string', False, False]]}
 
 
-_S_KIND = st.sampled_from(['hand'] * 5 + ['family'] * 3 + ['cli'] * 2 + ['history'] * 5)
+# destination cases: a name made of directory / stem / extension(s), a request, a writer path
+_S_DEST_DIR = st.sampled_from([''] * 5 + ['d.opb/', 'd.tex/', 'd.cnf/'])
+_S_DEST_STEM = st.sampled_from(['f', 'f', 'f', 'a.b', 'x y', 'é', '.h', 'a.opb', 'a.tex', 'a.cnf', '', '.', 'F', 'opb'])
+_S_DEST_EXT = st.sampled_from(['.opb'] * 4 + ['.tex'] * 3 + ['', '.cnf', '.dimacs', '.txt', '.gml', '.OPB', '.TEX', '.Tex', '.oPb',
+                               '.opb.', '.tex ', '.opbx', '.pb', '.latex', '.cnf.opb', '.tex.cnf', '.opb.tex'])
+_S_DEST_REQ = st.sampled_from([None, None, 'dimacs', 'dimacs', 'dimacs', 'dimacs', 'opb', 'latex'])
+_S_DEST_PATH = st.sampled_from(DEST_LIB_PATHS[:6] * 3 + DEST_LIB_PATHS[6:] + DEST_TOOL_PATHS)
+_S_DEST_NAMEOBJ = st.sampled_from(['str'] * 3 + ['abs'] * 2 + DEST_NAMEOBJ)
+_S_DEST_CLI = st.sampled_from(DEST_CLI)
+_S_DEST_OSPELL = st.sampled_from(DEST_OSPELL)
+_S_DEST_OFSPELL = st.sampled_from(DEST_OFSPELL)
+_S_DEST_TAIL = st.sampled_from([[], [], ['xor', 2], ['or', 2], ['none']])
+_S_QFLAG = st.sampled_from([[], ['-q']])
+
+
+@st.composite
+def _st_dest(draw):
+    name = draw(_S_DEST_DIR) + (draw(_S_DEST_STEM) + draw(_S_DEST_EXT) or 'f')
+    if name.rsplit('/', 1)[-1] in ('.', '..'):
+        name += 'f'
+    case = {'kind': 'dest', 'name': name, 'request': draw(_S_DEST_REQ), 'path': draw(_S_DEST_PATH),
+            'rseed': draw(_S_RSEED), 'export_header': draw(_S_BOOL), 'export_varnames': draw(_S_BOOL)}
+    how = case['path']
+    if how in DEST_LIB_PATHS:
+        # (header values are kept textual here: the LaTeX writer takes header['description'] for a string)
+        case.update(draw(_ST_HAND), kind='dest', chain=[], positional=draw(_S_BOOL),
+                    header=[[k, v if isinstance(v, str) else str(v)] for k, v in draw(_S_HEADER)])
+        if how.endswith('-object'):
+            case['nameobj'] = draw(_S_DEST_NAMEOBJ)
+        return case
+    case.update(ospell=draw(_S_DEST_OSPELL), o_first=draw(_S_BOOL), flags=draw(_S_QFLAG))
+    if how == 'cnfgen':
+        case.update(argv=draw(_S_DEST_CLI), ofspell=draw(_S_DEST_OFSPELL), o_first=True)    # the sub-command comes last
+        if draw(_S_BOOL):
+            case['flags'] = case['flags'] + ['--varnames']
+    elif how == 'cnfshuffle':
+        cl = draw(_S_SMALLCNF)
+        case.update(n=max([abs(l) for c in cl for l in c] + [0]) + draw(_I[0, 2]), clauses=cl)
+    else:
+        case['tail'] = draw(_S_DEST_TAIL)
+    return case
+
+
+def enum_dest(tier):
+    """every name x every request x every library path (two formulas, flags alternating); every name x every
+    request through cnfgen -of/-o; every name through cnfshuffle -o and kthlist2pebbling -o"""
+    forms = [([['anon', 6]], [[1, -2], [2, 3, -4], [], [-1]], [['note', 'p cnf 1 1']]),
+             ([['var', 'x'], ['block', 2, 2, 'z']], [[1, 2], [3, 4], [-1, -3, 5]], [])]
+    i = 0
+    for name in DEST_NAMES:
+        for how in DEST_LIB_PATHS:
+            for request in (DEST_REQUESTS if how.startswith('to_file') else [None]):
+                for nameobj in (DEST_NAMEOBJ if how.endswith('-object') else [None]):
+                    if nameobj not in (None, 'str', 'abs', 'bytes') and name != 'f.opb' and tier == 'quick':
+                        continue
+                    i += 1
+                    vars_, clauses, header = forms[i % 2]
+                    case = {'kind': 'dest', 'name': name, 'request': request, 'path': how, 'rseed': 1,
+                            'export_header': bool(i % 3), 'export_varnames': i % 4 == 1, 'positional': i % 5 == 0,
+                            'vars': [list(v) for v in vars_], 'clauses': [list(c) for c in clauses], 'chain': [],
+                            'header': [list(h) for h in header]}
+                    if nameobj is not None:
+                        case['nameobj'] = nameobj
+                    yield case
+    j = 0
+    for name in DEST_NAMES:
+        for request in DEST_REQUESTS:
+            j += 1
+            if tier == 'quick' and request in ('opb', 'latex') and name not in ('f.cnf', 'f.opb', 'f.tex', 'noext', 'F.TEX'):
+                continue
+            yield {'kind': 'dest', 'name': name, 'request': request, 'path': 'cnfgen', 'rseed': 1 + j, 'export_header': True,
+                   'export_varnames': False, 'argv': DEST_CLI[j % len(DEST_CLI)], 'flags': [[], ['-q'], ['--varnames']][j % 3],
+                   'ospell': DEST_OSPELL[(j // 4) % 4], 'ofspell': DEST_OFSPELL[(j // 3) % 4], 'o_first': True}
+        j += 1
+        yield {'kind': 'dest', 'name': name, 'request': None, 'path': 'cnfshuffle', 'rseed': 1 + j, 'export_header': True,
+               'export_varnames': False, 'n': 6, 'clauses': [[1, -2], [2, 3, -4], [], [-1]], 'flags': [[], ['-q']][j % 2],
+               'ospell': DEST_OSPELL[j % 4], 'o_first': bool(j % 3)}
+        for tail in ([], ['xor', 2]):
+            j += 1
+            if tier == 'quick' and tail and name not in ('f.cnf', 'f.opb', 'f.tex'):
+                continue
+            yield {'kind': 'dest', 'name': name, 'request': None, 'path': 'kthlist2pebbling', 'rseed': 1 + j,
+                   'export_header': True, 'export_varnames': False, 'flags': [[], ['-q']][j % 2], 'tail': tail,
+                   'ospell': DEST_OSPELL[j % 4], 'o_first': bool(j % 3)}
+
+
+_S_KIND = st.sampled_from(['hand'] * 5 + ['family'] * 3 + ['cli'] * 2 + ['history'] * 5 + ['dest'] * 3)
 _ST_HAND, _ST_FAMILY, _ST_CLI, _ST_HISTORY = _st_hand(), _st_family(), _st_cli(), _st_history()
+_ST_DEST = _st_dest()
 
 
 @st.composite
@@ -899,6 +1251,8 @@ def strat_writer(draw):
         return draw(_ST_CLI)
     if kind == 'history':
         return draw(_ST_HISTORY)
+    if kind == 'dest':
+        return draw(_ST_DEST)
     case = draw(_ST_HAND if kind == 'hand' else _ST_FAMILY)
     case['chain'] = draw(_S_CHAIN)
     case['rseed'] = draw(_S_RSEED)
@@ -945,6 +1299,7 @@ def enum_writer(tier):
                                 case['fname'] = 'formula.cnf'
                             yield case
     yield from enum_history(tier)
+    yield from enum_dest(tier)
 
 
 # ---------------------------------------------------------------------------
@@ -1977,8 +2332,15 @@ SUBCHECKS = [
     SubCheck('writer', run_writer, strategy=strat_writer, enumerate_cases=enum_writer,
              quick=3000, thorough=75000,
              rule="hand-built CNFs (0..12 variables from singleton/block/anonymous groups with unusual labels, 0..30 clauses of width 0..4, empty clauses, unused variables), 8 library families and 14 cnfgen command lines (incl. `dimacs <file with unusual name>`), chains flip/shuffle/one arity-2 substitution, 0..3 header entries with unusual keys/values, export_header x export_varnames, via to_dimacs/to_file(StringIO)/to_file(None)/to_file(filename)/to_dimacs_file/cnfgen -q|-v [--varnames] [-o]; plus a complete grid of 6 corner formulas x 11 corner texts x 3 positions x flags x 6 paths. Oracle: independent strict reader accepts, one problem line with the true counts, same clauses in order, comment lines start with 'c ', the tree's reader returns the same formula. Non-trivial: >=1 clause and (header on or >=1 unused variable). "
-                  "HISTORY (1/3 of the generated cases, kind=history): ONE formula object (CNF(), CNF(description), CNF(clauses), CNF.from_file(...), one of 8 library families, cli(argv, mode='formula') for 11 command lines) is encoded, then changed 2..6 times by add_clause(check=True|False, literals over the current variables or up to 2 beyond, empty clause) / add_clauses_from / update_variable_number(n-2..n+40) / new_variable / new_block / new_combinations, _with_replacement, permutations, words, mapping, binary_mapping, graph_edges, bipartite_edges, digraph_edges / header[k]=v / add_parity / add_linear, with 0..2 encodings after every change and one at the end, each through to_dimacs() (40%), to_file(StringIO|None|the same file name again), to_dimacs_file, with any export flags, and for cli starts cli(argv, mode='string') asked again in between; plus enumerated: encode/change/encode for 3 starts x 26 changes x pairs of paths (all 36 in the thorough tier), encode/change/encode/change/encode for 26 x 26 ordered pairs of changes x 3 paths, 11 command lines x 1 change (new variable / raise of the variable number / clause). Oracle: the harness's own model of the object (n and clause list updated by the documented effect of each operation; group sizes from their combinatorial definition) - every encoding must pass the writer oracle above against the model as it is at that moment, so all paths agree with each other and read back equal; the object must hold the model. Non-trivial: >=2 encodings and >=1 change",
-             required_labels=['kind-hand', 'kind-family', 'kind-cli', 'empty-formula', 'empty-clause', 'unused-vars',
+                  "HISTORY (1/3 of the generated cases, kind=history): ONE formula object (CNF(), CNF(description), CNF(clauses), CNF.from_file(...), one of 8 library families, cli(argv, mode='formula') for 11 command lines) is encoded, then changed 2..6 times by add_clause(check=True|False, literals over the current variables or up to 2 beyond, empty clause) / add_clauses_from / update_variable_number(n-2..n+40) / new_variable / new_block / new_combinations, _with_replacement, permutations, words, mapping, binary_mapping, graph_edges, bipartite_edges, digraph_edges / header[k]=v / add_parity / add_linear, with 0..2 encodings after every change and one at the end, each through to_dimacs() (40%), to_file(StringIO|None|the same file name again), to_dimacs_file, with any export flags, and for cli starts cli(argv, mode='string') asked again in between; plus enumerated: encode/change/encode for 3 starts x 26 changes x pairs of paths (all 36 in the thorough tier), encode/change/encode/change/encode for 26 x 26 ordered pairs of changes x 3 paths, 11 command lines x 1 change (new variable / raise of the variable number / clause). Oracle: the harness's own model of the object (n and clause list updated by the documented effect of each operation; group sizes from their combinatorial definition) - every encoding must pass the writer oracle above against the model as it is at that moment, so all paths agree with each other and read back equal; the object must hold the model. Non-trivial: >=2 encodings and >=1 change. "
+                  "DESTINATION (1/6 of the generated cases and an enumerated grid, kind=dest): EXPLICIT FORMAT REQUEST x NAME OF THE DESTINATION. Names: 31 fixed ones (f.cnf f.dimacs f.txt f.gml noext f.opb f.tex a.tex.cnf a.opb.cnf a.cnf.opb a.cnf.tex a.opb.tex a.tex.opb F.OPB F.TEX f.Opb f.teX F.CNF .opb .tex 'f.opb.' 'f.tex ' opb tex f.opbx f.latex d.opb/plain d.tex/h.cnf d.cnf/g.opb 'a b.opb' é.tex) and generated ones [d.opb/|d.tex/|d.cnf/] + stem (f a.b 'x y' é .h a.opb a.tex a.cnf '' . F opb) + one of 22 extensions (several dots, upper/mixed case, trailing dot/blank). Requests: none, 'dimacs', 'opb', 'latex' (keyword or positional). Writer paths: to_file(file name), to_file(handle opened by str name / by bytes name / os.fdopen with an int name), to_file(user object with write() and .name = the name | absolute path | bytes | 7 | None | [name] | no attribute), to_file(StringIO given a .name), to_dimacs_file(name | handle | user object), `cnfgen [-q] [--varnames] [-of|--output-format[=]|--latex <fmt>] -o|--output[=]|-o<glued> <name> <8 command lines>`, `cnfshuffle [-q] -p -v -c -i <harness-written DIMACS> -o <name>`, `kthlist2pebbling [-q] -i <harness-written dag of 1..6 vertices> -o <name> [xor 2|or 2|none]` (-o before or after -i), all in-process. Oracle: an explicit request decides the format whatever the name looks like - for 'dimacs' (and always for to_dimacs_file, cnfshuffle, kthlist2pebbling) the destination passes the full writer oracle above against the formula (for cnfshuffle: the formula of the harness-written source; for kthlist2pebbling without transformation also the harness's own pebbling clauses), for 'opb'/'latex' it opens with '* #variable= n #constraint= m' / holds a LaTeX document; WITHOUT a request the documented guess applies (docstring of CNF.to_file / guess_output_format: DIMACS unless the file name ends with '.tex' -> LaTeX or '.opb' -> OPB; that is what the unchanged tree does, on the last extension of a str name, case-sensitive): names whose last extension is exactly 'tex'/'opb' after a non-empty stem must give that format, all other names DIMACS, except the gray names (upper/mixed-case .TEX/.Opb, a bare '.opb'/'.tex', bytes names) where DIMACS or the suggested format is accepted; nothing goes to stdout. Non-trivial: >=1 clause and the name suggests a format other than the requested one, or a guess from the name.",
+             required_labels=['dest', 'dest-request-dimacs-against-name-opb', 'dest-request-dimacs-against-name-latex',
+                              'dest-request-opb-against-name-latex', 'dest-request-latex-against-name-opb',
+                              'dest-guess-opb', 'dest-guess-latex', 'dest-gray-name', 'dest-dotted-directory',
+                              'dest-got-dimacs', 'dest-got-opb', 'dest-got-latex'] +
+                             ['dest-path-' + p for p in DEST_LIB_PATHS + DEST_TOOL_PATHS] +
+                             ['dest-nameobj-' + k for k in DEST_NAMEOBJ] +
+                             ['kind-hand', 'kind-family', 'kind-cli', 'empty-formula', 'empty-clause', 'unused-vars',
                               'header-on', 'header-off', 'varnames-on', 'varnames-off', 'via-to_dimacs', 'via-strio',
                               'via-file', 'via-stdout', 'via-cli-stdout', 'via-cli-file', 'text-lf', 'text-cr',
                               'text-nonascii', 'text-problem-line', 'text-leading-c', 'text-empty', 'chain',
